@@ -61,6 +61,10 @@ def cases(draw):
       if r['algo'] == R.NOQ and draw(st.booleans()):
         # a no_quantize rule may carry a config (update_quantization_recipe accepts one)
         r = R.rule(r['regex'], r['op'], R.NOQ, dict(draw(st.sampled_from(R.COMMON_CFGS))[1]))
+        stars = [x['rule'] for x in steps if x['do'] == 'add' and x['rule']['op'] == '*' and x['rule']['algo'] != R.NOQ]
+        if stars and r['op'] != '*' and draw(st.booleans()):
+          # an opt-out for one op that re-uses the regex and config of the '*' rule
+          r = R.rule(stars[-1]['regex'], r['op'], R.NOQ, dict(stars[-1]['cfg']))
       if r['algo'] == R.MINMAX and draw(st.integers(0, 7)) == 0:
         r = dict(r, algo=USER_ALGO)
       steps.append({'do': 'add', 'rule': r, 'enum': draw(st.booleans()),
